@@ -8,6 +8,7 @@ import (
 	"fmt"
 	"sync"
 	"sync/atomic"
+	"time"
 
 	"verif/core"
 
@@ -80,7 +81,13 @@ func handshake(keys [2]crypto.PrivKey, m *mitm, script [2][][]byte) *session {
 			s.d.partyDone(i)
 		}(i)
 	}
-	wg.Wait()
+	done := make(chan struct{})
+	go func() { wg.Wait(); close(done) }()
+	select {
+	case <-done:
+	case <-time.After(120 * time.Second):
+		core.Fatal("handshake goroutines did not finish within 120 s (harness deadlock; mitm=%+v)", m)
+	}
 	s.d.freeze()
 	e0, e1 := s.d.unit(0, 0), s.d.unit(1, 0)
 	s.aLo = bytes.Compare(e0, e1) < 0
@@ -452,8 +459,11 @@ func (c *ctx) mitmCases_(quick bool) []kase {
 					add("subst", 0, 0)
 					add("reflect", 0, 0)
 				} else {
+					// the opposite direction's unit g must exist without B needing the unit
+					// that is being replaced: B's data units (3..5) only exist once B's
+					// handshake is over, so they can only be reflected into data units
 					for _, g := range []int{f - 1, f, f + 1} {
-						if g >= 1 && g < 6 {
+						if g >= 1 && g < 6 && (f >= 3 || g <= 2) {
 							add("reflect", g, 0)
 						}
 					}
